@@ -418,24 +418,40 @@ class PendingFor(_PendingLoop[For]):
         self.converted_body[0:0] = binder.assign_auto(self.node.target, tmp)
         return Name(id=tmp.id, ctx=Store())
 
+    def _loop_iter(self, prefix: list[expr]) -> expr:
+        """
+        An assignment expression is not allowed inside the iterable of a
+        comprehension: evaluate such an iterable in front of the comprehension.
+        """
+        loop_iter = expr_transf(self.nsp, self.node.iter)
+        if any(isinstance(_node, NamedExpr) for _node in walk(loop_iter)):
+            prefix.append(
+                NamedExpr(target=self.flow_ctrl_wrapped_iter_expr, value=loop_iter)
+            )
+            return self.flow_ctrl_wrapped_iter_expr
+        return loop_iter
+
     def get_result(self) -> list[expr]:
         loop_target = self._bind_target()
         # if no break/continue/return used
         # use the simplest list comprehension
         if self.interrupt_cnt == 0 and len(self.node.orelse) == 0:
-            return [
+            simple_loop: list[expr] = []
+            simple_loop_iter = self._loop_iter(simple_loop)
+            simple_loop.append(
                 ListComp(
                     elt=self.nsp_global.expr_wraper(self.converted_body),
                     generators=[
                         comprehension(
                             target=loop_target,
-                            iter=expr_transf(self.nsp, self.node.iter),
+                            iter=simple_loop_iter,
                             ifs=[],
                             is_async=0,
                         )
                     ],
                 )
-            ]
+            )
+            return simple_loop
 
         for_loop_final: list[expr] = []
 
@@ -460,7 +476,7 @@ class PendingFor(_PendingLoop[For]):
         # we don't need use iter_wrapper
         # if we don't use break
         if self.break_cnt == 0:
-            for_loop_iter = expr_transf(self.nsp, self.node.iter)
+            for_loop_iter = self._loop_iter(for_loop_final)
         else:
             from .presets import iter_wrapper_name
 
